@@ -37,14 +37,16 @@ int janet_indexed_view(Janet seq, const Janet **data, int32_t *len) {
  * tracked in a->capacity and respected by the two models, the code under proof never indexes the destination itself. */
 #ifdef LIB_BLOCK
 #define BLOCK_ELEMS(n) ((size_t)LIB_BLOCK)
+#define BLOCK_ALLOC(n) malloc(sizeof(Janet[LIB_BLOCK]))        /* typed: an array of LIB_BLOCK Janets */
 #else
 #define BLOCK_ELEMS(n) ((size_t)(n))
+#define BLOCK_ALLOC(n) malloc((size_t)(n) * sizeof(Janet))
 #endif
 static void grow(JanetArray *a, int32_t newcap) {
 #ifdef LIB_BLOCK
   __CPROVER_assert(newcap <= LIB_BLOCK, "harness: capacity within the constant block size");
 #endif
-  Janet *q = malloc(BLOCK_ELEMS(newcap) * sizeof(Janet));
+  Janet *q = BLOCK_ALLOC(newcap);
   __CPROVER_assume(q != L_NULL);
   if (a->data != L_NULL) {
     if (g_idx >= 0 && g_idx < a->count && g_idx < newcap) q[g_idx] = a->data[g_idx];
@@ -71,7 +73,11 @@ void janet_array_push_stub(JanetArray *a, Janet x) {
 int32_t g_oldcount, g_oldcap; uint64_t g_val; int g_val_set;
 static Janet *mk_args(int self_any_size) {
   g_argc = nd_i32();
+#ifdef LIB_ARGC
+  __CPROVER_assume(g_argc == LIB_ARGC);      /* one unit per argument count */
+#else
   __CPROVER_assume(g_argc >= 0 && g_argc <= 3);
+#endif
   Janet *argv = malloc((size_t)g_argc * sizeof(Janet));
   __CPROVER_assume(argv != L_NULL);
   g_arr = malloc(sizeof(JanetArray));
@@ -79,10 +85,10 @@ static Janet *mk_args(int self_any_size) {
 #ifdef LIB_BLOCK
   __CPROVER_assume(g_arr->capacity <= LIB_MAXCAP);
 #endif
-  if (g_arr->capacity > 0) { g_arr->data = malloc(BLOCK_ELEMS(g_arr->capacity) * sizeof(Janet)); __CPROVER_assume(g_arr->data != L_NULL); } else g_arr->data = L_NULL;
+  if (g_arr->capacity > 0) { g_arr->data = BLOCK_ALLOC(g_arr->capacity); __CPROVER_assume(g_arr->data != L_NULL); } else g_arr->data = L_NULL;
   g_part.len = nd_i32();
   __CPROVER_assume(g_part.len >= 0 && g_part.len <= LIB_MAXPART);
-  Janet *items = malloc(BLOCK_ELEMS(g_part.len) * sizeof(Janet));
+  Janet *items = BLOCK_ALLOC(g_part.len);
   __CPROVER_assume(items != L_NULL);
   g_part.items = items;
   g_idx = nd_i32(); g_idx2 = nd_i32(); g_j = nd_i32(); g_grown = 0;
@@ -119,24 +125,32 @@ static void check_result(Janet *argv, Janet r, int join) {
 #define SELF_BOUND(argv) \
   if (g_argc > 1 && IS_SELF(argv[1])) __CPROVER_assume(g_arr->count <= LIB_MAXPART); \
   if (g_argc > 2 && IS_SELF(argv[2])) __CPROVER_assume((int64_t)g_arr->count + N_OF(1, g_arr->count) <= LIB_MAXPART)
-void h_array_concat(void) {
-  Janet *argv = mk_args(0);
-  SELF_BOUND(argv);
-  Janet r = cfun_array_concat(g_argc, argv);
-  REACH("array/concat returns");
-  check_result(argv, r, 0);
-  if (g_argc == 3 && IS_SELF(argv[1]) && IS_IDX(argv[2]) && !IS_SELF(argv[2]) && g_oldcount == 2 && g_part.len == 2 && g_grown) REACH("array/concat returns after appending the array to itself and another sequence");
-  if (g_argc == 3 && !IS_IDX(argv[1]) && IS_SELF(argv[2]) && g_grown && g_arr->count == 4) REACH("array/concat returns after appending a value and the grown array to itself");
+#ifndef LIB_ARGC
+#define LIB_ARGC 3
+#endif
+#define H_CONCAT(fn, lisp, join) \
+void h_##fn(void) { \
+  Janet *argv = mk_args(0); \
+  SELF_BOUND(argv); \
+  Janet r = cfun_##fn(g_argc, argv); \
+  REACH(lisp " returns"); \
+  check_result(argv, r, join); \
+  H_CONCAT_MARKERS(lisp) \
 }
-void h_array_join(void) {
-  Janet *argv = mk_args(0);
-  SELF_BOUND(argv);
-  Janet r = cfun_array_join(g_argc, argv);
-  REACH("array/join returns");
-  check_result(argv, r, 1);
-  if (g_argc == 3 && IS_SELF(argv[1]) && !IS_SELF(argv[2]) && g_oldcount == 2 && g_part.len == 2 && g_grown) REACH("array/join returns after appending the array to itself and another sequence");
-  if (g_argc == 3 && !IS_SELF(argv[1]) && IS_SELF(argv[2]) && g_grown && g_arr->count == 4) REACH("array/join returns after appending a tuple and the grown array to itself");
-}
+#if LIB_ARGC == 3
+#define H_CONCAT_MARKERS(lisp) \
+  if (IS_SELF(argv[1]) && IS_IDX(argv[2]) && !IS_SELF(argv[2]) && g_oldcount == 2 && g_part.len == 2 && g_grown) REACH(lisp " returns after appending the array to itself and another sequence"); \
+  if (IS_IDX(argv[1]) && !IS_SELF(argv[1]) && IS_SELF(argv[2]) && g_grown && g_arr->count == 4) REACH(lisp " returns after appending a sequence and the grown array to itself");
+#elif LIB_ARGC == 2
+#define H_CONCAT_MARKERS(lisp) \
+  if (IS_SELF(argv[1]) && g_oldcount == 2 && g_grown) REACH(lisp " returns after appending the array to itself with reallocation"); \
+  if (IS_SELF(argv[1]) && g_oldcount == 1 && !g_grown) REACH(lisp " returns after appending the array to itself in place"); \
+  if (IS_IDX(argv[1]) && !IS_SELF(argv[1]) && g_part.len == 2) REACH(lisp " returns after appending another sequence");
+#else
+#define H_CONCAT_MARKERS(lisp) if (g_arr->count == g_oldcount) REACH(lisp " returns the unchanged array for no parts");
+#endif
+H_CONCAT(array_concat, "array/concat", 0)
+H_CONCAT(array_join, "array/join", 1)
 /* the array appended to itself, ANY size: the reservation arithmetic and the liveness of the element view. The copy loop
  * is cut after LIB_SELF_STEPS iterations (no unwinding assertion): obligations of interest are the signed-overflow check
  * on `array->count + len` and the pointer checks on vals[j]. */
